@@ -86,8 +86,8 @@ func runOneCtx(parent context.Context, solver, file string, timeoutS, seed int) 
 	case strings.Contains(first, "timeout") || ctx.Err() != nil || strings.Contains(s, "interrupted by timeout"):
 		res = "timeout"
 	}
-	if len(s) > 20000 {
-		s = s[:20000]
+	if len(s) > 2000000 {
+		s = s[:2000000]
 	}
 	return SolverRun{Solver: solver, Result: res, Seconds: secs, Output: s}
 }
